@@ -61,6 +61,7 @@ func (b *buffer) getAny(fields map[Ident]func() wireType, addProp func(UserProp)
 }
 
 func (b *buffer) get(v wireType) {
+	verifStep(b, v)
 	if b.err != nil {
 		return
 	}
